@@ -16,8 +16,12 @@ package main
 import (
 	"encoding/base64"
 	"encoding/hex"
+	"go/token"
 	"go/types"
 	"strconv"
+	"strings"
+
+	"golang.org/x/tools/go/ssa"
 )
 
 func init() {
@@ -161,5 +165,124 @@ func init() {
 			return tuple{i, fr.ex.mkError(e.Error())}
 		}
 		return tuple{i, iface{}}
+	})
+}
+
+// sync.Pool: a last-in first-out store per pool object (the real pool may drop
+// items at any time; keeping them is the behaviour that lets state leak from one
+// use to the next, which is what matters for the code that uses it); Get on an
+// empty pool calls New.
+func init() {
+	reg("(*sync.Pool).Put", func(fr *frame, a []value) value {
+		ex := fr.ex
+		if ex.pools == nil {
+			ex.pools = map[*value][]value{}
+		}
+		p := a[0].(*value)
+		ex.pools[p] = append(ex.pools[p], a[1])
+		return nil
+	})
+	reg("(*sync.Pool).Get", func(fr *frame, a []value) value {
+		ex := fr.ex
+		p := a[0].(*value)
+		if items := ex.pools[p]; len(items) > 0 {
+			v := items[len(items)-1]
+			ex.pools[p] = items[:len(items)-1]
+			return v
+		}
+		pt := ex.prog.namedType("sync", "Pool")
+		newFn := ex.structField((*p).(structure), pt, "New")
+		if newFn == nil {
+			return iface{}
+		}
+		if c, ok := newFn.(*closure); ok && c == nil {
+			return iface{}
+		}
+		if f, ok := newFn.(*ssa.Function); ok && f == nil {
+			return iface{}
+		}
+		return call(ex, fr, token.NoPos, newFn, nil)
+	})
+}
+
+// json.NewEncoder(w).Encode(v): the encoder is its writer; Encode appends the
+// JSON text of v and a newline to a modelled in-memory writer (*bytes.Buffer,
+// *strings.Builder).
+func init() {
+	reg("encoding/json.NewEncoder", func(fr *frame, a []value) value {
+		ex := fr.ex
+		h := ex.newOpaque("encoding/json", "Encoder")
+		if ex.readers == nil {
+			ex.readers = map[*value]value{}
+		}
+		ex.readers[h] = a[0]
+		return h
+	})
+	reg("(*encoding/json.Encoder).SetEscapeHTML", func(fr *frame, a []value) value { return nil })
+	reg("(*encoding/json.Encoder).SetIndent", func(fr *frame, a []value) value { return nil })
+	reg("(*encoding/json.Encoder).Encode", func(fr *frame, a []value) value {
+		ex := fr.ex
+		w, ok := ex.readers[a[0].(*value)].(iface)
+		if !ok || w.t == nil {
+			ex.unsupported("json.Encoder over a nil writer")
+		}
+		res, errv := ex.jsonMarshal(fr, a[1].(iface))
+		if e, isErr := errv.(iface); isErr && e.t != nil {
+			return errv
+		}
+		txt := bytesToString(fr, res.([]value))
+		p, isPtr := w.v.(*value)
+		if !isPtr || p == nil {
+			ex.unsupported("json.Encoder over a writer that is not a modelled in-memory buffer")
+		}
+		st, isStruct := (*p).(structure)
+		if !isStruct || len(st) < 2 {
+			ex.unsupported("json.Encoder over a writer that is not a modelled in-memory buffer")
+		}
+		var cur value = ""
+		switch c := st[1].(type) {
+		case string:
+			cur = c
+		case symv:
+			cur = c
+		}
+		st[1] = ex.strConcat(ex.strConcat(cur, txt), "\n")
+		return iface{}
+	})
+}
+
+func init() {
+	b2s := func(fr *frame, v value) string { return strArg(fr, bytesToString(fr, v.([]value))) }
+	reg("bytes.TrimSpace", func(fr *frame, a []value) value { return stringToBytes(strings.TrimSpace(b2s(fr, a[0]))) })
+	reg("bytes.TrimRight", func(fr *frame, a []value) value {
+		return stringToBytes(strings.TrimRight(b2s(fr, a[0]), strArg(fr, a[1])))
+	})
+	reg("bytes.TrimSuffix", func(fr *frame, a []value) value {
+		return stringToBytes(strings.TrimSuffix(b2s(fr, a[0]), b2s(fr, a[1])))
+	})
+	reg("bytes.HasPrefix", func(fr *frame, a []value) value { return strings.HasPrefix(b2s(fr, a[0]), b2s(fr, a[1])) })
+	reg("bytes.HasSuffix", func(fr *frame, a []value) value { return strings.HasSuffix(b2s(fr, a[0]), b2s(fr, a[1])) })
+	reg("bytes.Contains", func(fr *frame, a []value) value { return strings.Contains(b2s(fr, a[0]), b2s(fr, a[1])) })
+}
+
+func init() {
+	// functions of package strings that take a predicate: the predicate is code under test
+	pred := func(fr *frame, f value, r rune) bool {
+		return fr.ex.truth(call(fr.ex, fr, token.NoPos, f, []value{r}))
+	}
+	reg("strings.FieldsFunc", func(fr *frame, a []value) value {
+		s := strArg(fr, a[0])
+		return strSliceToValue(strings.FieldsFunc(s, func(r rune) bool { return pred(fr, a[1], r) }))
+	})
+	reg("strings.TrimFunc", func(fr *frame, a []value) value {
+		return strings.TrimFunc(strArg(fr, a[0]), func(r rune) bool { return pred(fr, a[1], r) })
+	})
+	reg("strings.IndexFunc", func(fr *frame, a []value) value {
+		return strings.IndexFunc(strArg(fr, a[0]), func(r rune) bool { return pred(fr, a[1], r) })
+	})
+	reg("strings.Map", func(fr *frame, a []value) value {
+		return strings.Map(func(r rune) rune {
+			return rune(asInt64(call(fr.ex, fr, token.NoPos, a[0], []value{r})))
+		}, strArg(fr, a[1]))
 	})
 }
